@@ -127,7 +127,7 @@ func propC16(w *World, r *Report) {
 		e := newTermEnv(w)
 		for _, m := range []string{"CopyRecent", "Move"} {
 			fn := ri.methods[m]
-			paths, _ := enumPaths(e, fn, 16)
+			paths, _ := enumPathsInl(e, fn, 16, ringHelper(ri, fn))
 			okLock := len(paths) > 0
 			for _, p := range paths {
 				var calls []string
@@ -145,7 +145,7 @@ func propC16(w *World, r *Report) {
 			}
 			r.Check(okLock, "R2", m+" runs entirely under the ring's mutex", w.Pos(fn.Pos()), "")
 		}
-		paths, _ := enumPaths(e, ri.methods["CopyRecent"], 16)
+		paths, _ := enumPathsInl(e, ri.methods["CopyRecent"], 16, ringHelper(ri, ri.methods["CopyRecent"]))
 		for _, p := range paths {
 			ret := p.Term(e, p.Ret.Results[0]).String()
 			prev := "rem((" + ri.CUR + " + " + ri.N + " + -1), " + ri.N + ")"
